@@ -65,3 +65,17 @@ func (s *Swarm) VerifStopPeerTimers(name mesh.PeerName) {
 		p.(*Peer).cancel()
 	}
 }
+
+// VerifRelease drops the replicated state, the member list and the delegates of a closed swarm (the mesh router, whose
+// goroutines outlive Stop, keeps the swarm itself reachable).
+func (s *Swarm) VerifRelease() {
+	s.Lock()
+	defer s.Unlock()
+	s.members.list.Range(func(k, v interface{}) bool {
+		v.(*Peer).cancel()
+		s.members.list.Delete(k)
+		return true
+	})
+	s.state = event.NewState("")
+	s.OnSubscribe, s.OnUnsubscribe, s.OnDisconnect, s.OnMessage = nil, nil, nil, nil
+}
